@@ -166,7 +166,7 @@ func Run(c *vk.Ctx) {
 	c.Note("pairs: all ordered pairs of {base, singles} x 4 value-vector pairs x placements {one input; one input with every entity duplicated; two inputs with colliding ids; two inputs, second with disjoint sparse ids and duplicated entities; three inputs [A],[B],[B'] (quick: first two value pairs only)} x every order of the inputs")
 	c.Note("header: all assignments of (TimeNanos in {0,5,9} x Period in {0,3,7}) to 1..3 inputs; (Duration in {0,4,10} x 5 comment lists) to 1..3 inputs; (DefaultSampleType x DocURL x DropFrames x KeepFrames) to 1..2 inputs; thorough: joint product of 216 headers on 2 inputs")
 	if c.Thorough() {
-		c.Note("thorough: all unordered triples of {base, singles} x 2 value triples x placements {one input; [A,B],[C]; [A],[B],[C]} x every order; every two-attribute variant paired (both ways) with the base and with the two single-attribute variants it is one attribute away from x 4 value pairs x the 5 placements x every order")
+		c.Note("thorough: all unordered triples of {base, singles} x 3 value triples x placements {one input; [A,B],[C]; [A],[B],[C]} x every order; every two-attribute variant paired (both ways) with the base and with the two single-attribute variants it is one attribute away from x 4 value pairs x the 5 placements x every order")
 	}
 
 	// singles alone
